@@ -55,13 +55,6 @@ Proof. apply Permutation_flat_map, files_perm. Qed.
 Lemma index_perm w p : Permutation (index w p) (all_types p).
 Proof. apply Permutation_flat_map, files_perm. Qed.
 
-Lemma by_files_indep {B} (h : file -> list B) w w' p :
-  Nat.leb 2 (count_files (fun f => nonnil (h f)) p) = false ->
-  flat_map h (files_in_order w p) = flat_map h (files_in_order w' p).
-Proof. intros H. apply Nat.leb_gt in H. unfold count_files in H. unfold files_in_order, order_by.
-  rewrite !(flat_map_isort_lt2 h (fun f => nonnil (h f))); auto.
-  all: intros a Ha; destruct (h a); [reflexivity|discriminate]. Qed.
-
 (* ---------------- the index ---------------- *)
 Lemma lookup_perm idx idx' n : NoDup (map t_name idx) -> Permutation idx idx' -> lookup idx n = lookup idx' n.
 Proof. intros Hn Hp. unfold lookup. set (f := fun d => Nat.eqb (t_name d) n).
@@ -102,20 +95,11 @@ Definition Rch (idx : list tdef) (roots : list name) (n : name) : Prop :=
 Lemma from_cmds_in idx roots n : In n (filter (defined idx) (reach_list (dep_graph idx) roots)) <-> Rch idx roots n.
 Proof. rewrite filter_In. destruct (reach_list_spec (dep_graph idx) roots) as [_ H]. rewrite H. unfold Rch. tauto. Qed.
 
-Lemma used_in idx p n : In n (used idx p) <-> Rch idx (cmd_roots p) n \/ (defined idx n = true /\ In n (ev_roots p)).
-Proof. unfold used. rewrite in_app_iff, from_cmds_in, filter_In, nodup_In, andb_true_iff, negb_true_iff.
-  split.
-  - intros [H|(H1 & H2 & H3)]; auto.
-  - intros [H|[H1 H2]]; auto.
-    destruct (memb n (filter (defined idx) (reach_list (dep_graph idx) (cmd_roots p)))) eqn:E; auto.
-    left. apply from_cmds_in. apply memb_true in E. exact E. Qed.
+Lemma used_in idx p n : In n (used idx p) <-> Rch idx (cmd_roots p ++ ev_roots p) n.
+Proof. unfold used. apply from_cmds_in. Qed.
 
 Lemma used_NoDup idx p : NoDup (used idx p).
-Proof. unfold used. apply NoDup_app_disj.
-  - apply NoDup_filter. apply reach_list_spec.
-  - apply NoDup_filter. apply NoDup_nodup.
-  - intros x Hx Hx'. apply filter_In in Hx' as [_ Hx']. apply andb_true_iff in Hx' as [_ Hx'].
-    apply negb_true_iff, memb_false in Hx'. auto. Qed.
+Proof. unfold used. apply NoDup_filter. apply reach_list_spec. Qed.
 
 Lemma Rch_ext idx idx' roots roots' n :
   (forall m, lookup idx m = lookup idx' m) -> eqset roots roots' -> Rch idx roots n -> Rch idx' roots' n.
@@ -128,11 +112,11 @@ Lemma used_perm idx idx' p p' :
   (forall m, lookup idx m = lookup idx' m) -> eqset (cmd_roots p) (cmd_roots p') -> eqset (ev_roots p) (ev_roots p') ->
   Permutation (used idx p) (used idx' p').
 Proof. intros Hl Hc He. apply NoDup_Permutation; try apply used_NoDup. intros n. rewrite !used_in.
-  assert (Hl' : forall m, lookup idx' m = lookup idx m) by (intros; symmetry; auto).
-  assert (Hc' : eqset (cmd_roots p') (cmd_roots p)) by (intros x; symmetry; apply Hc).
-  unfold defined. rewrite Hl. split; intros [H|[H1 H2]].
-  - left. eapply Rch_ext; eauto. - right. split; auto. apply He; auto.
-  - left. eapply Rch_ext; eauto. - right. split; auto. apply He; auto. Qed.
+  assert (Hr : eqset (cmd_roots p ++ ev_roots p) (cmd_roots p' ++ ev_roots p')).
+  { intros x. rewrite !in_app_iff. rewrite (Hc x), (He x). tauto. }
+  split; intros H.
+  - eapply Rch_ext; eauto.
+  - eapply Rch_ext; [| |exact H]. intros; symmetry; auto. intros x; symmetry; apply Hr. Qed.
 
 Lemma zod_order_perm w idx p : Permutation (zod_order w idx p) (used idx p).
 Proof. apply NoDup_Permutation.
@@ -155,42 +139,93 @@ Lemma type_decls_zod_perm idx idx' ns ns' :
 Proof. intros Hl Hp. unfold type_decls_zod. eapply perm_trans; [apply Permutation_flat_map; exact Hp|].
   erewrite flat_map_ext; [apply Permutation_refl|]. intros a. cbv beta. rewrite Hl. reflexivity. Qed.
 
-Lemma events_file_perm es es' : Permutation es es' ->
-  opt_perm (match es with [] => None | e :: l => Some (map (fun e => DListener (e_name e)) (e :: l)) end)
-           (match es' with [] => None | e :: l => Some (map (fun e => DListener (e_name e)) (e :: l)) end) /\
+(* ---------------- listeners: one per event name, first emit site wins ---------------- *)
+Definition consistent (es : list ev) : Prop :=
+  forall a b, In a es -> In b es -> e_name a = e_name b -> e_pay a = e_pay b.
+
+Lemma dupevent_consistent p : kf_dupevent p = false -> consistent (all_events p).
+Proof. unfold kf_dupevent, all_events. intros H a b Ha Hb E.
+  destruct (Nat.eqb (e_pay a) (e_pay b)) eqn:Ep; [apply Nat.eqb_eq; auto|]. exfalso.
+  match type of H with ?L = false => assert (X : L = true) end; [|rewrite X in H; discriminate].
+  apply existsb_exists. exists a. split; auto. apply existsb_exists. exists b. split; auto.
+  rewrite E, Nat.eqb_refl, Ep. reflexivity. Qed.
+
+Lemma dedup_incl es : forall seen e, In e (dedup_events seen es) -> In e es /\ ~ In (e_name e) seen.
+Proof. induction es as [|a es IH]; intros seen e; cbn [dedup_events]. contradiction.
+  destruct (memb (e_name a) seen) eqn:M.
+  - intros H. apply IH in H as [H1 H2]. split; auto. right; auto.
+  - intros [<-|H]. split; [left; auto|]. apply memb_false; auto.
+    apply IH in H as [H1 H2]. split; [right; auto|]. intros Hs. apply H2. right; auto. Qed.
+Lemma dedup_names_NoDup es : forall seen, NoDup (map e_name (dedup_events seen es)).
+Proof. induction es as [|a es IH]; intros seen; cbn [dedup_events]. constructor.
+  destruct (memb (e_name a) seen); [apply IH|]. cbn [map]. constructor; [|apply IH].
+  intros Hin. apply in_map_iff in Hin as (e & E & He). apply dedup_incl in He as [_ Hn]. apply Hn. left. auto. Qed.
+Lemma dedup_covers es : forall seen e, In e es -> ~ In (e_name e) seen ->
+  exists e0, In e0 (dedup_events seen es) /\ e_name e0 = e_name e.
+Proof. induction es as [|a es IH]; intros seen e Hin Hs. contradiction. cbn [dedup_events].
+  destruct (memb (e_name a) seen) eqn:M.
+  - destruct Hin as [->|Hin]. apply memb_true in M. contradiction. apply IH; auto.
+  - destruct Hin as [->|Hin]. exists e. split; [left|]; auto.
+    destruct (Nat.eq_dec (e_name e) (e_name a)) as [E|E]. exists a. split; [left; auto|auto].
+    destruct (IH (e_name a :: seen) e Hin) as (e0 & H0 & E0). intros [H|H]; [congruence|auto].
+    exists e0. split; [right|]; auto. Qed.
+
+Definition decl_event (d : decl) : name := match d with DListener e _ => e | _ => 0 end.
+Lemma listeners_NoDup es : NoDup (map listener_decl (dedup_events [] es)).
+Proof. apply (NoDup_map_inv decl_event). rewrite map_map. apply (dedup_names_NoDup es []). Qed.
+Lemma listeners_incl es es' d : consistent es -> eqset es es' ->
+  In d (map listener_decl (dedup_events [] es)) -> In d (map listener_decl (dedup_events [] es')).
+Proof. intros Hc Hs Hd. apply in_map_iff in Hd as (e & <- & He). apply dedup_incl in He as [He _].
+  destruct (dedup_covers es' [] e) as (e0 & H0 & E0). apply Hs; auto. intros [].
+  apply in_map_iff. exists e0. split; auto. unfold listener_decl. rewrite E0. f_equal.
+  apply Hc; auto. apply Hs. apply dedup_incl in H0 as [H0 _]. exact H0. Qed.
+Lemma listeners_perm es es' : consistent es -> Permutation es es' ->
+  Permutation (map listener_decl (dedup_events [] es)) (map listener_decl (dedup_events [] es')).
+Proof. intros Hc Hp. assert (Hs : eqset es es') by (apply perm_eqset; auto).
+  apply NoDup_Permutation; try apply listeners_NoDup. intros d. split.
+  - apply listeners_incl; auto.
+  - apply listeners_incl. intros a b Ha Hb. apply Hc; apply Hs; auto. intros x; symmetry; apply Hs. Qed.
+
+Lemma events_file_perm es es' : consistent es -> Permutation es es' ->
+  opt_perm (match es with [] => None | e :: l => Some (map listener_decl (dedup_events [] (e :: l))) end)
+           (match es' with [] => None | e :: l => Some (map listener_decl (dedup_events [] (e :: l))) end) /\
   (match es with [] => @nil decl | _ => [DReexport 2] end) = (match es' with [] => [] | _ => [DReexport 2] end).
-Proof. intros H. destruct es as [|e es], es' as [|e' es'].
+Proof. intros Hc H. destruct es as [|e es], es' as [|e' es'].
   - split; cbn; auto. - apply Permutation_nil in H. discriminate.
   - apply Permutation_sym, Permutation_nil in H. discriminate.
-  - split; [|reflexivity]. cbn [opt_perm]. apply Permutation_map. exact H. Qed.
+  - split; [|reflexivity]. cbn [opt_perm]. apply listeners_perm; auto. Qed.
 
 (* ---------------- C13_move / C13_set_independent ---------------- *)
-Theorem move_perm : forall p p', Permutation (all_items p) (all_items p') -> kf_dupdef p = false ->
-  forall zod w w', out_perm (gen zod w p) (gen zod w' p').
+(* the pipeline as a function of the orders it is handed *)
+Theorem raw_perm : forall p p',
+  Permutation (all_cmds p) (all_cmds p') -> Permutation (all_events p) (all_events p') ->
+  Permutation (all_types p) (all_types p') -> kf_dupdef p = false -> kf_dupevent p = false ->
+  forall zod w w', out_perm (gen_raw zod w p) (gen_raw zod w' p').
 Proof.
-  intros p p' Hp Hd zod w w'.
+  intros p p' Hpc Hpe Hpt Hd Hde zod w w'.
   assert (Hc : Permutation (commands w p) (commands w' p')).
-  { eapply perm_trans; [apply commands_perm|]. eapply perm_trans; [|apply Permutation_sym, commands_perm].
-    rewrite !all_cmds_items. apply Permutation_flat_map; auto. }
+  { eapply perm_trans; [apply commands_perm|]. eapply perm_trans; [|apply Permutation_sym, commands_perm]. exact Hpc. }
   assert (He : Permutation (events w p) (events w' p')).
-  { eapply perm_trans; [apply events_perm|]. eapply perm_trans; [|apply Permutation_sym, events_perm].
-    rewrite !all_events_items. apply Permutation_flat_map; auto. }
+  { eapply perm_trans; [apply events_perm|]. eapply perm_trans; [|apply Permutation_sym, events_perm]. exact Hpe. }
   assert (Hi : Permutation (index w p) (index w' p')).
-  { eapply perm_trans; [apply index_perm|]. eapply perm_trans; [|apply Permutation_sym, index_perm].
-    rewrite !all_types_items. apply Permutation_flat_map; auto. }
+  { eapply perm_trans; [apply index_perm|]. eapply perm_trans; [|apply Permutation_sym, index_perm]. exact Hpt. }
   assert (Hn : NoDup (map t_name (index w p))).
   { eapply Permutation_NoDup; [apply Permutation_map, Permutation_sym, index_perm|]. apply has_dup_NoDup. exact Hd. }
   assert (Hl : forall m, lookup (index w p) m = lookup (index w' p') m) by (intros; apply lookup_perm; auto).
   assert (Hcr : eqset (cmd_roots p) (cmd_roots p')).
-  { apply perm_eqset. unfold cmd_roots. apply Permutation_flat_map. rewrite !all_cmds_items. apply Permutation_flat_map; auto. }
+  { apply perm_eqset. unfold cmd_roots. apply Permutation_flat_map. exact Hpc. }
   assert (Her : eqset (ev_roots p) (ev_roots p')).
-  { apply perm_eqset. unfold ev_roots. apply Permutation_flat_map. rewrite !all_events_items. apply Permutation_flat_map; auto. }
+  { apply perm_eqset. unfold ev_roots. apply Permutation_flat_map. exact Hpe. }
   assert (Hu : Permutation (used (index w p) p) (used (index w' p') p')) by (apply used_perm; auto).
-  unfold gen. destruct (commands w p) as [|c cs] eqn:E1, (commands w' p') as [|c' cs'] eqn:E2.
+  assert (Hcons : consistent (events w p)).
+  { intros a b Ha Hb. apply (dupevent_consistent p Hde).
+    - eapply Permutation_in; [apply events_perm|exact Ha].
+    - eapply Permutation_in; [apply events_perm|exact Hb]. }
+  unfold gen_raw. destruct (commands w p) as [|c cs] eqn:E1, (commands w' p') as [|c' cs'] eqn:E2.
   - exact I. - apply Permutation_nil in Hc. discriminate.
   - apply Permutation_sym, Permutation_nil in Hc. discriminate.
   - cbn [out_perm o_types o_commands o_events o_index]. unfold types_file, commands_file, events_file, index_file.
-    rewrite E1, E2. destruct (events_file_perm _ _ He) as [Hev Hix]. repeat split.
+    rewrite E1, E2. destruct (events_file_perm _ _ Hcons He) as [Hev Hix]. repeat split.
     + destruct zod.
       * apply Permutation_app; [|apply Permutation_app; apply Permutation_flat_map; exact Hc].
         apply type_decls_zod_perm; auto. eapply perm_trans; [apply zod_order_perm|].
@@ -203,5 +238,9 @@ Proof.
     + f_equal. exact Hix.
 Qed.
 
-Theorem set_independent : forall p, kf_dupdef p = false -> forall zod w w', out_perm (gen zod w p) (gen zod w' p).
-Proof. intros p Hd zod w w'. apply move_perm; auto. Qed.
+Theorem move_perm : forall p p', Permutation (all_items p) (all_items p') -> kf_dupdef p = false -> kf_dupevent p = false ->
+  forall zod w w', out_perm (gen zod w p) (gen zod w' p').
+Proof. intros p p' Hp Hd He zod w w'. unfold gen. apply raw_perm; auto.
+  - rewrite !all_cmds_items. apply Permutation_flat_map; auto.
+  - rewrite !all_events_items. apply Permutation_flat_map; auto.
+  - rewrite !all_types_items. apply Permutation_flat_map; auto. Qed.
